@@ -511,6 +511,14 @@ def check_content(sim, rec, m, eff, out, asked, hits):
         if n_attr != len(ident) or n_vals != sum(len(v) for v in ident.values()) or n_children:
             add(sim, rec, "C08", "structure-changed", "attrs=%d values=%d children=%d asked=%d/%d" % (
                 n_attr, n_vals, n_children, len(ident), sum(len(v) for v in ident.values())))
+    # the lifetime the provider was asked to give the assertion
+    pa = asked.get("p", {})
+    if pa.get("lifetime") and not pa.get("dialect") and not asked.get("attribute_response") and a["conditions"] \
+            and asked.get("idp_now") is not None:
+        nooa = wire.ts_epoch(a["conditions"]["not_on_or_after"])
+        if nooa is not None and nooa != asked["idp_now"] + pa["lifetime"]:
+            add(sim, rec, "C08", "lifetime-not-as-asked", "asserted until idp_now%+d, asked idp_now%+d" % (
+                nooa - asked["idp_now"], pa["lifetime"]))
     if out.get("in_response_to") != asked.get("irt") and "resp_irt" not in (asked.get("p", {}).get("dialect") or {}):
         add(sim, rec, "C08", "in-response-to-mismatch", "got=%s asked=%s" % (out.get("in_response_to"), asked.get("irt")))
     if out.get("issuer") != asked.get("issuer"):
